@@ -68,14 +68,19 @@ def _parse_grammar(description):
 
 
 def _install_module(name, module):
+    sys.modules[name] = module
+
     if '.' not in name:
-        sys.modules[name] = module
         return
 
+    # Make the module an attribute of its package, creating the package if it
+    # does not exist yet.
     parent_name, child_name = name.rsplit('.', 1)
     try:
         parent_module = importlib.import_module(parent_name)
     except ModuleNotFoundError:
         parent_module = types.ModuleType(parent_name)
+        parent_module.__path__ = []
         _install_module(parent_name, parent_module)
-        setattr(parent_module, child_name, module)
+
+    setattr(parent_module, child_name, module)
